@@ -951,7 +951,7 @@ fn exec(_op: &str, args: &[&str], expected: &str) -> Option<Verdict> {
             continue;
         }
         if e == o { continue; }
-        if o == "P" || e == "P" && o == "E" {
+        if o == "P" || e == "P" {
             // a panic / refusal class difference is C09's subject, not C01's: noted, comparison stops (stores diverge)
             open = Some(format!("step {} `{}`: real {} vs model {} (panic class, not judged by C01)", k, args[k], o, e)); break;
         }
